@@ -460,3 +460,29 @@ Proof.
   unfold let_ordered in Hl. rewrite Hfs in Hl.
   eapply emit_head_cases; eauto.
 Qed.
+
+(* ================= the whole clause ================= *)
+Lemma emit_head_replace cr s : emit_head (replace_wildcards cr) s = emit_head cr s.
+Proof. reflexivity. Qed.
+
+Lemma accepted_eval_no_unbound_error_lemma cr Sneg sel :
+  check cr = true -> alias_free cr = true -> atom_apps_bound cr = true ->
+  head_apps_ok cr = true -> let_ordered cr = true ->
+  eval_clause Sneg sel (replace_wildcards cr) = None ->
+  (exists j p s, nth_error (cbody (replace_wildcards cr)) j = Some p /\
+                 sat (fun f => In f Sneg) sel 0 (firstn j (cbody (replace_wildcards cr))) [] s /\
+                 value_error s p)
+  \/ (exists s, sat (fun f => In f Sneg) sel 0 (cbody (replace_wildcards cr)) [] s /\
+        ((exists t, In t (aargs (chead cr)) /\ fn_error s t)
+         \/ (exists j v t s', nth_error (clet cr) j = Some (v, t) /\
+                              run_let s (firstn j (clet cr)) = Some s' /\ fn_error s' t))).
+Proof.
+  intros Hc Ha Hap Hh Hl He. unfold eval_clause in He.
+  destruct (solve Sneg sel 0 (cbody (replace_wildcards cr)) [[]]) as [sols|] eqn:Hs.
+  - right. apply map_opt_none in He as (s & Hin & Hn). rewrite emit_head_replace in Hn.
+    exists s. split.
+    + apply (solve_spec _ _ _ _ _ _ Hs) in Hin as (s0 & [<-|[]] & Hsat). exact Hsat.
+    + destruct (accepted_head_ground_lemma cr Sneg sel sols Hc Ha Hh Hl Hs s Hin) as [(f & Hf)|H];
+        [congruence|exact H].
+  - left. apply accepted_no_unbound_error_lemma; auto.
+Qed.
